@@ -48,6 +48,9 @@ CLAIMED.update({
  "C01": C("stateful (model-based) property-based testing: generated operation histories, reference multigraph written from the rustdoc, full observation compared after every step",
           "Operation histories over Graph for both edge types and four index widths (incl. histories that fill the u8 index space); every public query and iterator, detached walkers and the raw linked lists are compared with a reference multigraph after every operation.",
           "the reference model and observation comparison in harness/src/gmodel.rs and props/c01.rs", "DESIGN.md section 5, C01"),
+ "C02": C("stateful (model-based) property-based testing under two build profiles: generated operation histories incl. failing calls, slot model with free index choice, full observation after every step",
+          "Operation histories over StableGraph (both edge types, four index widths, u8 filled to its limit), run with debug assertions on and off; every query/iterator/walker/bound is compared with a slot model after every operation, failing calls must change nothing, any panic on a valid call is a violation.",
+          "the slot model and observation comparison in harness/src/gmodel.rs and props/c02.rs", "DESIGN.md section 5, C02"),
 })
 PLANNED = {}
 
